@@ -17,7 +17,7 @@ from sim.prop import Prop
 EPS = 1e-9
 A_VALUES = (1, 1.0, True, "1", 2, (1,))
 B_VALUES = (10, 10.0, 2)
-FLAVOURS = ("sync-fn", "async-fn", "sync-method", "async-method")
+FLAVOURS = ("sync-fn", "async-fn", "sync-method", "async-method", "async-fn-wrapping-sync")
 EXPIRATIONS = (None, 128, 1024, 5120)  # grid steps
 
 
@@ -51,7 +51,7 @@ class C12(Prop):
         "thorough": [("history", 4800000), ("expiry", 3000000), ("deep", 150000)],
     }
     rule_text = (
-        "one case = flavour (sync/async function, sync/async method) x limit 1..4 x expiration {None, 1/8, 1, 5} x a "
+        "one case = flavour (sync/async function, sync/async method, async adapter over a sync function) x clock epoch x limit 1..4 x expiration {None, 1/8, 1, 5} x a "
         "history of <=60 ops over call(form)/advance/gc-check/drop-receiver/replace-receiver/shallow-copy-receiver with arguments from {1, 1.0, True, '1', 2, "
         "(1,)} in positional and keyword forms on 1..3 receivers (two of them ==-equal but distinct); distinct = "
         "distinct event-log digest (program included); non-trivial = the history reached an eviction, an expiry, or "
@@ -70,7 +70,9 @@ class C12(Prop):
 
         s = sim.source
         Receiver.generations = 0  # per-run numbering (the event log must not depend on earlier runs)
-        flavour = FLAVOURS[s.draw(4, "flavour")]
+        flavour = FLAVOURS[s.weighted((2, 2, 2, 2, 1), "flavour")]
+        # the library clock and the loop clock need not share an epoch; large readings make relative tolerances visible
+        sim.mono_epoch = (0.0, 0.0, 4096.0, 5000000.0)[s.draw(4, "clock-epoch")]
         limit = 1 + s.draw(8 if profile == "deep" else 4, "limit")
         if profile == "expiry":
             exp_steps = EXPIRATIONS[1 + s.draw(3, "exp")]
@@ -134,6 +136,15 @@ class C12(Prop):
             @cache(**kwargs)
             async def fn(a, b=10):
                 return produce(None, a, b)
+            target = [lambda r: fn]
+        elif flavour == "async-fn-wrapping-sync":
+            # an async adapter around a sync function (it exposes __wrapped__ = the sync one): what counts is the adapter
+            from haiway import wrap_async
+
+            def sync_original(a, b=10):
+                return produce(None, a, b)
+
+            fn = cache(**kwargs)(wrap_async(sync_original))
             target = [lambda r: fn]
         elif flavour == "sync-method":
             class Host(Receiver):
@@ -260,6 +271,12 @@ class C12(Prop):
                         # the caller does not keep the traceback (its frames reference cache internals, which
                         # would make the harness itself keep evicted results alive)
                         exc.__traceback__ = None
+                    except BaseException as exc:  # noqa: BLE001
+                        from sim.loop import SimStop
+                        if isinstance(exc, SimStop):
+                            raise
+                        sim.fail("foreign-exception", f"call {fkey} raised {exc!r}, which the wrapped function never raised", flavour=flavour,
+                                 error=type(exc).__name__)
                     raise_next[0] = None
                     invoked = counter[0] - before
                     if fkey in recency:
